@@ -176,9 +176,16 @@ class Excel_EAMTabulation(_EAMTabulationAbstractbase):
     self._inner_tabulation = None 
 
   def _build_workbook(self):
-    self._inner_tabulation = Excel_PairTabulation(self.potentials, self.cutoff, self.nr)
-    wb = self._inner_tabulation.workbook
-    self._add_sheets(wb)
+    # Only keep the workbook once every sheet has been filled: if an evaluation fails
+    # part-way a later write() must not emit the half-built workbook.
+    inner_tabulation = Excel_PairTabulation(self.potentials, self.cutoff, self.nr)
+    wb = inner_tabulation.workbook
+    self._inner_tabulation = inner_tabulation
+    try:
+      self._add_sheets(wb)
+    except BaseException:
+      self._inner_tabulation = None
+      raise
 
   def _add_sheets(self, wb):
     self._add_eam_density(wb)
